@@ -148,13 +148,52 @@ def flatten_sites(P, key, ty):
 
 
 def splice_headers(P, rep, prefix):
+    _splice_headers(P, rep, prefix, "builder::pass0::pass0_internal", "splicing a macro expansion", True)
+    _splice_headers(P, rep, prefix + "|pass0-entry", "builder::pass0::build_pass_0", "handing the parsed segments to pass 0", False)
+    plain_items(P, rep, prefix)
+
+
+def plain_items(P, rep, prefix):
+    """an item that is not a macro call goes to the output's last segment exactly once, unchanged (its line and the item itself)"""
+    import absint
+    import sx
+    fn = "builder::pass0::pass0_internal"
+    M = absint.Machine(P, max_depth=3, opaque={"builder::pass0::macro_expand"}, loop_limit=1)
+    M.iter_budget = 1
+    paths = M.explore(fn, M.arg_unknowns(fn))
+    if M.capped or M.unsupported:
+        rep.unprovable("%s|plain-items|explore" % prefix, "exploration of pass0_internal incomplete: %s" % M.unsupported[:2])
+        return
+    n = 0
+    bad = None
+    for p in paths:
+        cs = [sx.show(e) for e, t in p.conds]
+        yielded = any(sx.show(e) == "more(segment.items)" and t for e, t in p.conds)
+        is_macro = any(":Instruction.0#d == " in sx.show(e) and t and "Custom" in str(P.lib.adts["instruction::operation::Operation"]["variants"][int(sx.show(e).rsplit("== ", 1)[1].rstrip(")"), 0)]["name"]) for e, t in p.conds
+                       if ":Instruction.0#d == " in sx.show(e) and sx.show(e).startswith("(segment.items[i].1:Instruction.0#d"))
+        if not yielded or is_macro:
+            continue
+        if p.exit == "Err":
+            # a depth error for a plain item would be wrong
+            bad = bad or "a plain item can fail in pass 0 (%s)" % cs[-1:]
+            continue
+        n += 1
+        pushes = [e for e in p.events if e[0] == 'push']
+        ok = len(pushes) == 1 and pushes[0][2] == "agg(segment.items[i].0, segment.items[i].1)" and "last(context*.segments" in pushes[0][1]
+        if not ok:
+            bad = bad or "a plain item is not pushed once, unchanged, to the output's last segment (pushes: %s)" % [(e[1][-40:], e[2][:60]) for e in pushes]
+    rep.ob("%s|plain-items" % prefix, bad is None and n >= 2,
+           "every item that is not a macro call is appended once, with its line, to the output's last segment (%d paths)" % n if bad is None and n >= 2 else
+           (bad or "only %d plain-item paths found" % n))
+
+
+def _splice_headers(P, rep, prefix, key, doing, with_decision):
     """The segments a macro expansion produced are put into the output with their own start address and type, and the decision whether
     the first of them continues the output's current segment compares it with the output's last segment.
     (parser::Segment fields are looked up by name; sources are `expanded[0]` = Index(vec, 0) or the element of the splice loop)"""
-    key = "builder::pass0::pass0_internal"
     b = P.body.get(key)
     if b is None:
-        rep.unprovable("%s|anchor" % prefix, "pass0_internal not found")
+        rep.unprovable("%s|anchor" % prefix, "%s not found" % key)
         return
     fn = [f["name"] for f in P.lib.adts["parser::Segment"]["variants"][0]["fields"]]
     fa, ft = fn.index("address"), fn.index("t")
@@ -184,7 +223,7 @@ def splice_headers(P, rep, prefix):
         return ("other", r[0], flds)
 
     adds = [(bb, t) for bb, t, n, tg in P.call_sites(key) if any(x.endswith("Pass0Context::add_segment") for x in tg)]
-    rep.count("segments opened while splicing a macro expansion", len(adds))
+    rep.count("segments opened while %s" % doing, len(adds))
     first_adds = []
     for bb, t in adds:
         r = ch.root(t["args"][1], through_calls=False)
@@ -208,7 +247,7 @@ def splice_headers(P, rep, prefix):
             rep.ob("%s|header|other" % prefix, False,
                    "a segment opened while splicing a macro expansion is built by %s, not from the expanded segment's address and type: an `.org` (or segment switch) inside the macro body is lost" % what, loc=where)
     # the decision for the first expanded segment
-    for bb, sa in first_adds:
+    for bb, sa in (first_adds if with_decision else []):
         got = set()
         for bi, bl in enumerate(b["blocks"]):
             cands = []
@@ -229,7 +268,7 @@ def splice_headers(P, rep, prefix):
                "whether the first expanded segment continues the current output segment is decided by comparing its address and type with the output's last segment" if ok else
                "the first expanded segment's address/type are not compared with the output's last segment (comparisons found: %s): after a macro that left another segment selected or moved the origin, the next expansion lands in the wrong place" % sorted(got),
                loc=loc_of(b["blocks"][bb]["tspan"]))
-    rep.floor("segments opened while splicing a macro expansion", len(adds), 3)
+    rep.floor("segments opened while %s" % doing, len(adds), 3 if with_decision else 2)
 
 
 def run(tier):
